@@ -1249,39 +1249,6 @@ coap_oscore_decrypt_pdu(coap_session_t *session,
     nonce.length = 13;
     oscore_generate_nonce(cose, osc_ctx, nonce_buffer, 13);
     cose_encrypt0_set_nonce(cose, &nonce);
-    /*
-     * Set up an association for use in the response
-     */
-    association = oscore_find_association(session, &pdu_token);
-    if (association) {
-      /* Refresh the association */
-      coap_delete_bin_const(association->nonce);
-      association->nonce =
-          coap_new_bin_const(cose->nonce.s, cose->nonce.length);
-      if (association->nonce == NULL)
-        goto error;
-      coap_delete_bin_const(association->partial_iv);
-      association->partial_iv =
-          coap_new_bin_const(cose->partial_iv.s, cose->partial_iv.length);
-      if (association->partial_iv == NULL)
-        goto error;
-      coap_delete_bin_const(association->aad);
-      association->aad = coap_new_bin_const(cose->aad.s, cose->aad.length);
-      if (association->aad == NULL)
-        goto error;
-      association->recipient_ctx = rcp_ctx;
-    } else if (!oscore_new_association(session,
-                                       NULL,
-                                       &pdu_token,
-                                       rcp_ctx,
-                                       &cose->aad,
-                                       &cose->nonce,
-                                       &cose->partial_iv,
-                                       0)) {
-      goto error;
-    }
-    /* So association is not released when handling decrypt */
-    association = NULL;
   } else { /* ! coap_request */
     /* Need to do nonce before AAD because of different partial_iv */
     /*
@@ -1465,6 +1432,44 @@ coap_oscore_decrypt_pdu(coap_session_t *session,
   }
 
   assert((size_t)pltxt_size < pdu->alloc_size + pdu->max_hdr_size);
+
+  if (coap_request) {
+    /*
+     * Set up an association for use in the response, now that the request
+     * is verified: the nonce and AAD a response is protected with must
+     * never come from a request that did not authenticate.
+     */
+    association = oscore_find_association(session, &pdu_token);
+    if (association) {
+      /* Refresh the association */
+      coap_delete_bin_const(association->nonce);
+      association->nonce =
+          coap_new_bin_const(cose->nonce.s, cose->nonce.length);
+      if (association->nonce == NULL)
+        goto error;
+      coap_delete_bin_const(association->partial_iv);
+      association->partial_iv =
+          coap_new_bin_const(cose->partial_iv.s, cose->partial_iv.length);
+      if (association->partial_iv == NULL)
+        goto error;
+      coap_delete_bin_const(association->aad);
+      association->aad = coap_new_bin_const(cose->aad.s, cose->aad.length);
+      if (association->aad == NULL)
+        goto error;
+      association->recipient_ctx = rcp_ctx;
+    } else if (!oscore_new_association(session,
+                                       NULL,
+                                       &pdu_token,
+                                       rcp_ctx,
+                                       &cose->aad,
+                                       &cose->nonce,
+                                       &cose->partial_iv,
+                                       0)) {
+      goto error;
+    }
+    /* So association is not released when handling decrypt */
+    association = NULL;
+  }
 
   /* Appendix B.2 Trap */
   if (session->b_2_step == COAP_OSCORE_B_2_STEP_2) {
